@@ -2,6 +2,7 @@
 Ctx of the property that invokes it, so obligations and violations are attributed to that
 property. Rule ids keep the id of the property that defines them (e.g. C01.R5 used by C02)."""
 from rulekit import Guard, cpoint, Point
+import re
 import core
 
 TM = 'TransactionalMemory'
@@ -4304,6 +4305,26 @@ def key_compare_rules(ctx):
         if not cm:
             continue
         n += 1
+        # component comparisons inside closures of the compare function (`then_with(|| ...)`): the captured
+        # variables are traced back to the parent's parameters by name
+        for cl in f.closures:
+            scl = core.sym(cl)
+            for c in cl.calls:
+                if (c.declared or '').split('::')[-1] not in ('cmp', 'compare', 'partial_cmp', 'total_cmp') or cl.blocks[c.bb]['c'] or len(c.t['a']) != 2:
+                    continue
+                src = []
+                for a in c.t['a']:
+                    d = scl.describe(scl.operand(a))
+                    root = re.split(r'[.\[@]|__', d)[0]
+                    args_ = set()
+                    for i_ in range(len(f.locals)):
+                        if f.local_name(i_) == root:
+                            args_ |= core.flow_sources(f, i_)[2]
+                    src.append(args_)
+                ok_ = src[0] <= {1} and src[1] <= {2} and bool(src[0]) and bool(src[1])
+                ctx._ob(ok_, ctx.sample('arg-flow', cl, c.line, 'component comparison in a closure is (first, second)'))
+                if not ok_:
+                    ctx.violate('arg-flow|%s|swapped-component|closure' % f.path, 'a component comparison inside a closure of this Key::compare does not compare the first key with the second (receiver from args %s, operand from args %s)' % (sorted(src[0]), sorted(src[1])), cl, c.line)
         for c in cm:
             a0 = core.flow_sources(f, c.t['a'][0])[2]
             a1 = core.flow_sources(f, c.t['a'][1])[2]
@@ -5094,3 +5115,47 @@ def survey2_rules(ctx):
         ctx.check(len(st) == 1, 'floor|%s|recovery-cleared' % f.path, 'a loaded snapshot clears recovery_required in memory', f, f.line)
         if st and rz:
             ctx.order(f, rz, st, 'recovery_required is cleared only after the allocators are in place')
+
+
+def flush_take_rules(ctx):
+    ctx.set_rule('C08.R9', 'a buffered page leaves its write-buffer slot only when no write of that stripe can fail any more')
+    f = ctx.fn(PCF + '::flush_write_buffer')
+    if f is None:
+        return
+    tk = ctx.sites(f, 'Option::take', exact=1)
+    wr = ctx.sites(f, CB + '::write', exact=1)
+    cl = ctx.sites(f, 'LRUWriteCache::clear', exact=1)
+    for p in tk:
+        r = core.reach(f, start=(p.bb, len(f.blocks[p.bb]['s'])), cut_blocks={q.bb for q in cl})
+        bad = [q for q in wr if q.bb in r['term']]
+        ctx._ob(not bad, ctx.sample('order', f, p.line, 'no fallible write after a page was taken out of the stripe'))
+        if bad:
+            ctx.violate('order|%s|take-before-write' % f.path, 'a page is taken out of its write-buffer slot while a write of the same stripe can still fail: on failure the page (or an emptied slot) is left behind', f, p.line)
+
+
+def oldest_search_rules(ctx):
+    """The tracker's `oldest_*` queries walk an ordered map from the front and return the first entry that
+    qualifies; a search from the back, or a predicate applied to the first entry only, answers a different
+    question."""
+    ctx.set_rule('C02.R11', 'oldest_* tracker queries search from the front and test every entry (no rfind / next_back / Option::filter)')
+    n = 0
+    BAD_BACK = ('rfind', 'next_back', 'last', 'max', 'max_by', 'max_by_key', 'rev', 'rposition', 'pop_last', 'last_key_value')
+    for f in ctx.facts.fn_list:
+        last = f.path.split('::')[-1]
+        if f.kind == 'closure' or not (f.path.startswith('transaction_tracker::TransactionTracker::') and last.startswith('oldest_')):
+            continue
+        n += 1
+        fam = f.family() if hasattr(f, 'family') else [f]
+        bad = []
+        for g in fam:
+            for c in g.calls:
+                nm = (c.declared or c.callee or '').split('::')[-1]
+                if nm in BAD_BACK and not g.blocks[c.bb]['c']:
+                    bad.append((g, c, nm))
+                if nm == 'filter' and 'Option' in (c.declared or c.callee or '') and not g.blocks[c.bb]['c']:
+                    bad.append((g, c, 'Option::filter'))
+        ctx._ob(not bad, ctx.sample('shape', f, f.line, '%s searches from the front over all entries' % last))
+        for g, c, nm in bad:
+            ctx.violate('shape|%s|%s' % (f.path, nm), '`%s` uses %s: the oldest qualifying entry is the first match of a front-to-back search over every entry' % (last, nm), g, c.line)
+        ctx.held(f, [cpoint(c) for c in f.calls if (c.declared or c.callee or '').split('::')[-1] in ('keys', 'iter', 'first_key_value', 'range')][:1], TTSTATE)
+    ctx.check(n >= 3, 'floor|oldest-queries', 'oldest_* tracker queries analysed: %d' % n)
